@@ -371,10 +371,19 @@ func runC14(args []string) error {
 				if n, _ := fmt.Sscanf(t, "m%d:", &a); n == 1 {
 					res := t[strings.Index(t, ":")+1:]
 					switch {
-					case strings.HasPrefix(res, "created-"), strings.HasPrefix(res, "restored-"):
+					case strings.HasPrefix(res, "created-"):
 						made[cur[a]]++
 					case res == "deleted":
 						gone[cur[a]]++
+					}
+				}
+			}
+			// a restore registers the table's record before it loads the stream: every restore call may bring the table
+			// into existence once, whether or not it completes
+			for _, cs := range scripts {
+				for _, cc := range cs {
+					if cc.kind >= 3 {
+						made[catNames[cc.name]]++
 					}
 				}
 			}
